@@ -4,42 +4,35 @@ import (
 	"testing"
 
 	"github.com/dolthub/go-mysql-server/vh/internal/fx"
-	"github.com/dolthub/go-mysql-server/vh/internal/kf"
 	"github.com/dolthub/go-mysql-server/vh/internal/stats"
 )
 
-// TestC05Known re-confirms the witness of C05-hashin-negative-zero: MOD(-2,-2) is -0, the
-// select list says -0 IN (1,0) is TRUE, the WHERE clause (hashed IN list) drops the row. Listed:
-// must still misbehave (else reported as stale); not listed: must satisfy the property.
+// TestC05Known is a regression witness: MOD(-2,-2) is -0, the select list says -0 IN (1,0) is
+// TRUE, and before /repo 4fbce1b30 (finding C07-hashin-negzero, status fixed) the WHERE clause
+// (hashed IN list) dropped the row. The witness must satisfy the property.
 func TestC05Known(t *testing.T) {
 	st := stats.New("C05", "known")
 	defer st.Flush()
-	st.Eval()
 	f := fx.New(fx.Opts{})
 	defer f.Close()
 	s := f.NewSession("", "", "")
-	s.MustExec(t.Fatalf, "CREATE TABLE t1 (c0 INT NOT NULL, PRIMARY KEY (c0))", "INSERT INTO t1 VALUES (-2),(3)")
-	sel := s.Exec("SELECT x1.c0, (MOD(x1.c0,-2) IN (1,0)) AS v FROM t1 x1")
-	fil := s.Exec("SELECT x1.c0 FROM t1 x1 WHERE (MOD(x1.c0,-2) IN (1,0))")
-	if !sel.OK() || !fil.OK() {
-		t.Fatalf("witness statements failed: %s / %s", sel, fil)
-	}
-	var want [][]string
-	for _, r := range fx.NormRows(sel.Schema, sel.Rows) {
-		if truth(r[1]) == 1 {
-			want = append(want, r[:1])
+	s.MustExec(t.Fatalf, "CREATE TABLE t1 (c0 INT NOT NULL, PRIMARY KEY (c0))", "INSERT INTO t1 VALUES (-2),(3),(1)")
+	for _, p := range []string{"MOD(x1.c0,-2) IN (1,0)", "MOD(x1.c0,2) IN (1,0)", "MOD(x1.c0,2) NOT IN (1,0)"} {
+		st.Eval()
+		sel := s.Exec("SELECT x1.c0, (" + p + ") AS v FROM t1 x1")
+		fil := s.Exec("SELECT x1.c0 FROM t1 x1 WHERE (" + p + ")")
+		if !sel.OK() || !fil.OK() {
+			t.Fatalf("witness statements failed: %s / %s", sel, fil)
 		}
-	}
-	ok := fx.MultisetEqual(fx.NormRows(fil.Schema, fil.Rows), want)
-	switch {
-	case ok && kf.Listed(idNegZero):
-		t.Logf("witness of listed finding %s no longer reproduces (stale listing?)", idNegZero)
-	case ok:
-		st.NonTrivial(nil, "witness")
-	case kf.Suppress(st, idNegZero):
-		st.NonTrivial(nil, "witness")
-		t.Logf("known finding %s reproduces: select list %s, filter %s", idNegZero, sel, fil)
-	default:
-		t.Errorf("finding %s (not listed as known): WHERE MOD(c0,-2) IN (1,0) returns %s but p is TRUE in the select list for %s", idNegZero, fil, fx.Show(want))
+		var want [][]string
+		for _, r := range fx.NormRows(sel.Schema, sel.Rows) {
+			if truth(r[1]) == 1 {
+				want = append(want, r[:1])
+			}
+		}
+		if !fx.MultisetEqual(fx.NormRows(fil.Schema, fil.Rows), want) {
+			t.Errorf("regression of C07-hashin-negzero: WHERE %s returns %s but p is TRUE in the select list for %s", p, fil, fx.Show(want))
+		}
+		st.NonTrivial(nil, "witness", p)
 	}
 }
